@@ -13,8 +13,8 @@ static void ref_murmur(const uint8_t* data, int len, uint64_t seed, uint64_t* o1
   uint64_t h1 = seed, h2 = seed; int nb = len / 16;
   for (int i = 0; i < nb; i++) {
     uint64_t k1 = rd64(data + 16 * i), k2 = rd64(data + 16 * i + 8);
-    k1 = MUL(k1, c1); k1 = rotl(k1, 31); k1 = MUL(k1, c2); h1 ^= k1; h1 = rotl(h1, 27); h1 += h2; h1 = MUL(h1, 5) + 0x52dce729;
-    k2 = MUL(k2, c2); k2 = rotl(k2, 33); k2 = MUL(k2, c1); h2 ^= k2; h2 = rotl(h2, 31); h2 += h1; h2 = MUL(h2, 5) + 0x38495ab5;
+    k1 = MUL(k1, c1); k1 = rotl(k1, 31); k1 = MUL(k1, c2); h1 ^= k1; h1 = rotl(h1, 27); h1 += h2; h1 = h1 * 5 + 0x52dce729;
+    k2 = MUL(k2, c2); k2 = rotl(k2, 33); k2 = MUL(k2, c1); h2 ^= k2; h2 = rotl(h2, 31); h2 += h1; h2 = h2 * 5 + 0x38495ab5;
   }
   const uint8_t* tail = data + nb * 16; uint64_t k1 = 0, k2 = 0; int t = len & 15;
   for (int i = 14; i >= 8; i--) if (t > i) k2 ^= (uint64_t)tail[i] << (8 * (i - 8));
